@@ -525,7 +525,14 @@ def r11d(ctx):
             ctx.ok(cid, c.module.loc(fn), "not partition-filtered")
             continue
         reads = {n.attr for n in ast.walk(fn) if is_self_attr(n)}
-        if "_partitions" in reads or "_filtered" in reads:
+        # a selection is a SEQUENCE of partition numbers (repeats and any order are allowed): lengths must be picked by
+        # number / position; a membership test (`i in self._partitions`) answers for the set of selected partitions instead
+        from sa.rules.util import closure_functions
+
+        member = [n for _, _, f in closure_functions(model, c.module, c, fn, depth=1) for n in ast.walk(f) if isinstance(n, ast.Compare) and any(isinstance(o, (ast.In, ast.NotIn)) for o in n.ops) and any(is_self_attr(x, "_partitions") for x in n.comparators)]
+        if member:
+            ctx.bad(cid, c.module.loc(member[0]), f"`{unparse(member[0])}` picks the lengths of the SET of selected partitions: a selection that repeats or reorders partitions (partitions[[1, 1]], partitions[::-1]) gets fewer / differently ordered lengths than it has partitions")
+        elif "_partitions" in reads or "_filtered" in reads:
             ctx.ok(cid, c.module.loc(fn), "restricts lengths to the selected partitions")
         else:
             ctx.bad(cid, c.module.loc(fn), "returns lengths without consulting self._partitions / self._filtered: len() / lengths of a partition selection report other partitions' row counts")
